@@ -209,6 +209,13 @@ func (or *ObjectRegistry) applyConfig(config map[string]string) {
 			continue
 		}
 
+		if prevEntity != nil && prevEntity.Spec().Kind() != entity.Spec().Kind() {
+			// it is another object which reuses the name, not a new
+			// generation of the previous one: close that and create this.
+			deleted[name] = prevEntity
+			prevEntity = nil
+		}
+
 		if prevEntity != nil {
 			updated[name] = entity
 		} else {
